@@ -11,6 +11,7 @@ import (
 	"net"
 	"os"
 	"runtime"
+	"strings"
 	"sync"
 	"sync/atomic"
 	"time"
@@ -94,6 +95,7 @@ type Conn struct {
 	// client that waits for the server (Deadlocked).
 	SyncWrites bool
 	syncWait   bool
+	srvG       string // goroutine that reads the server side
 
 	CloseErr error // returned by the server-side Close (the connection is closed all the same)
 	rdl, wdl time.Time
@@ -128,12 +130,35 @@ func (c *Conn) WOff() int {
 	return len(c.out)
 }
 
+// goid returns the number of the calling goroutine (from its stack header).
+func goid() string {
+	var b [40]byte
+	h := string(b[:runtime.Stack(b[:], false)])
+	h = strings.TrimPrefix(h, "goroutine ")
+	if i := strings.IndexByte(h, ' '); i > 0 {
+		return h[:i]
+	}
+	return ""
+}
+
+// Abandoned reports, given a dump of all goroutine stacks, that the goroutine which last read from the
+// server side of the connection no longer exists although the connection was never closed: whoever
+// served it has returned without closing it.
+func (c *Conn) Abandoned(dump string) bool {
+	c.mu.Lock()
+	defer c.mu.Unlock()
+	return !c.closed && c.srvG != "" && !strings.Contains(dump, "goroutine "+c.srvG+" [")
+}
+
 func (c *Conn) Read(p []byte) (int, error) {
 	if c.Yield != nil {
 		c.Yield()
 	}
 	c.mu.Lock()
 	defer c.mu.Unlock()
+	if c.reads&15 == 0 {
+		c.srvG = goid() // (the serving goroutine may change at a TLS upgrade or a hand-over: refreshed now and then)
+	}
 	c.reads++
 	if c.ended {
 		c.afterEnd++
@@ -429,7 +454,7 @@ func (c *Conn) Abort(err error) {
 // WatchdogTimeout is the generous wall-clock limit for a single wait. Its
 // firing is never by itself a verdict (callers classify it as inconclusive or
 // inspect goroutine stacks).
-var WatchdogTimeout = 20 * time.Second
+var WatchdogTimeout = 40 * time.Second
 
 // Quiesce waits until the serving goroutine has consumed all input and is
 // blocked waiting for more, or has closed the connection. This is a logical
